@@ -22,6 +22,7 @@
 #include "corecel/io/Logger.hh"
 #include "corecel/io/OutputRegistry.hh"  // IWYU pragma: keep
 #include "corecel/sys/ActionRegistry.hh"  // IWYU pragma: keep
+#include "corecel/sys/VerifHook.hh"
 #include "celeritas/global/ActionLauncher.hh"
 #include "celeritas/global/CoreParams.hh"
 #include "celeritas/global/CoreState.hh"
@@ -227,8 +228,10 @@ void ActionDiagnostic::clear()
  */
 void ActionDiagnostic::begin_run_impl(CoreParams const& params)
 {
+    CELER_VERIF_YIELD("ActionDiagnostic::begin_run_impl:enter");
     if (!store_)
     {
+        CELER_VERIF_YIELD("ActionDiagnostic::begin_run_impl:before-lock");
         static std::mutex initialize_mutex;
         std::lock_guard<std::mutex> scoped_lock{initialize_mutex};
 
